@@ -21,7 +21,7 @@ OUT = os.environ.get("VERIF_OUT") or VERIF
 sys.path.insert(0, HERE)
 import gen  # noqa: E402
 
-KIND_NAMES = {"N": "RTM_NEWROUTE", "D": "RTM_DELROUTE", "R": "RTM_NEWNEIGH"}
+KIND_NAMES = {"N": "RTM_NEWROUTE", "D": "RTM_DELROUTE", "R": "RTM_NEWNEIGH", "K": "(kernel resolves, notification pending)"}
 
 
 def known_findings():
@@ -102,8 +102,14 @@ def main():
         # (both new routes before both deletions, the notification anywhere: 5 orders;
         # their first TWO events are concrete per process)
         five = [tuple("NNDD"[:k]) + ("R",) + tuple("NNDD"[k:]) for k in range(5)]
+        # (a six-event family KKNNDN - a gate number handed out after a next hop was
+        # released - was tried for seed C20/6: 2 of its 4 processes ended in a
+        # CrossHair RecursionError after 300 s; not registered, recorded as a gap)
+        only = os.environ.get("VERIF_C20_ONLY")  # debugging: one kind sequence
         for universe in ("A", "B"):
             for kinds in seqs + (five if universe == "A" else []):
+                if only and "".join(kinds) != only:
+                    continue
                 length = len(kinds)
                 name = "seq%s_%s" % (universe, "".join(kinds))
                 np_, nh, ni = gen.universe_sizes(universe)
